@@ -12,6 +12,7 @@
    parameters (record [sem]); the theorems hold for every choice.  [std_sem] is the instance that
    mirrors the logging runtime of the correspondence harness. *)
 From Coq Require Import List Bool Arith.
+From CyVerif Require Import Model.M_CCallMap.
 Import ListNotations.
 
 (* ---------- values, events ---------- *)
@@ -54,7 +55,13 @@ Inductive expr :=
 | ECond (c a b : expr)                    (* a if c else b *)
 | ECmp (a : expr) (ops : list op) (rest : list expr)   (* a op1 b op2 c ...  (two or more operators) *)
 | EMCall (m : nat) (o : op) (obj : expr) (args : list expr)  (* obj.m(args) without * / ** arguments *)
-| EMinMax (o : op) (args : list expr).    (* min(...) / max(...) with >= 2 arguments; o = the < or > *)
+| EMinMax (o : op) (args : list expr)     (* min(...) / max(...) with >= 2 arguments; o = the < or > *)
+(* call of a compile-time-known C function (cdef / cpdef function, C method): ndecl declared parameters
+   (after self) of which the first nreq are required; recv = the receiver of a method call (ENone for a
+   plain function); es = the argument values in CALL order: npos positional ones, then one per keyword;
+   names = the declared index of every keyword.  The operation o receives the receiver and the values
+   in DECLARATION order. *)
+| ECCall (o : op) (nreq ndecl : nat) (recv : expr) (npos : nat) (names : list nat) (es : list expr).
 
 (* simple assignment target: a name, or "evaluate es, then store operation o on (es, value)" *)
 Inductive starget := TName (x : nat) | TStore (o : op) (es : list expr).
@@ -173,6 +180,13 @@ Fixpoint eval (m : mode) (e : expr) {struct e} : res :=
       | v0 :: vs => let '(w, ev) := scan v0 vs in
                     tobool {| rv := w; rk := None; rev := flat_ev rs ++ ev; rlf := flat_lf rs |}
       end
+  | ECCall o nreq ndecl recv npos names es =>
+      (* CPython: the receiver, then every argument value in call order (positional, then keywords as
+         written), then the call, which binds the values to the declared parameters *)
+      let rr := eval MVal recv in
+      let rs := evals es in
+      let '(v, ev) := opsem S o (rv rr :: map (fun p => nth p (map rv rs) VNone) (ref_slots npos names ndecl 0)) in
+      tobool {| rv := v; rk := None; rev := rev rr ++ flat_ev rs ++ ev; rlf := rlf rr ++ flat_lf rs |}
   end.
 
 Fixpoint evals (es : list expr) : list res :=
@@ -329,7 +343,12 @@ Record flags := {
   fx_minmax : bool;     (* proposed fix: first min/max argument evaluated first *)
   fx_mcall : bool;      (* hypothetical: method looked up before the arguments (no fix proposed) *)
   fx_inplace : bool;    (* proposed fix: o.a.b op= v / o[i].b op= v evaluate the base object once *)
-  fx_cascade : bool }.  (* hypothetical: cascaded unpacking assigns target by target *)
+  fx_cascade : bool;    (* hypothetical: cascaded unpacking assigns target by target *)
+  (* GeneralCallNode.map_to_simple_call_node (keyword arguments of C function calls) *)
+  fx_ccsimple : bool;   (* proposed fix: only names and constants count as simple before type analysis *)
+  fx_cckeep : bool;     (* proposed fix: the argument list keeps its tail when leading arguments become temps *)
+  fx_ccrecv : bool;     (* proposed fix: the receiver of a C method call is evaluated before the keyword temps *)
+  cc_sorted : bool }.   (* the temps are sorted by call position (true = the code as it is) *)
 
 (* context of a node: value wanted, C truth value wanted, or operand of a jump-threaded and/or tree
    (BoolBinopNode.generate_bool_evaluation_code: result temp, "next and" label, "next or" label, end label) *)
@@ -383,6 +402,73 @@ Definition finish_bool (c : ctx) (code : list instr) (t : nat) (n : nat) : gres 
       let '(tail, n2) := thread_tail MBool res andl orl endl (OTemp t) n in
       (code ++ tail, OTemp res, n2)
   | _ => (code, OTemp t, n)
+  end.
+
+(* --- calls of C functions with keyword arguments --- *)
+(* ExprNode.is_simple() asked BEFORE type analysis: names, constants, attribute chains on such, and every
+   node class whose is_temp is set at class level (tuple / list / set / dict displays, f-strings, and / or,
+   conditional expressions) *)
+Fixpoint bsimple (e : expr) : bool :=
+  match e with
+  | EName _ | ENone => true
+  | EOp (OGetAttr _) [o] => bsimple o
+  | EOp (OSeq _) _ => true
+  | EAnd _ _ | EOr _ _ | ECond _ _ _ => true
+  | _ => false
+  end.
+
+(* what is really free of side effects *)
+Definition tsimple (e : expr) : bool :=
+  match e with EName _ | ENone => true | _ => false end.
+
+Definition csimple (F : flags) (e : expr) : bool := if fx_ccsimple F then tsimple e else bsimple e.
+
+(* code of the arguments at the call positions ps, one after the other; gfs = the code generators of all
+   arguments in call order *)
+Fixpoint gen_sel (gfs : list (nat -> gres)) (ps : list nat) (n : nat) : list instr * list operand * nat :=
+  match ps with
+  | [] => ([], [], n)
+  | p :: r => let '(c1, r1, n1) := nth p gfs (fun n => ([], ONoneC, n)) n in
+              let '(c2, rs, n2) := gen_sel gfs r n1 in
+              (c1 ++ c2, r1 :: rs, n2)
+  end.
+
+Fixpoint lookup (p : nat) (env : list (nat * operand)) : operand :=
+  match env with
+  | [] => ONoneC
+  | (q, o) :: r => if Nat.eqb q p then o else lookup p r
+  end.
+
+(* EvalWithTempExprNode chain (the temps, in list order) around a SimpleCallNode that evaluates its
+   function (the receiver) and then the arguments that were left in place, in argument-list order.
+   A rejected call (compile error) generates nothing. *)
+Definition ccall_code (F : flags) (c : ctx) (o : op) (nreq ndecl : nat) (grecv : nat -> gres)
+    (npos : nat) (names : list nat) (simple : nat -> bool) (gfs : list (nat -> gres)) (n : nat) : gres :=
+  match ccmap (cc_sorted F) (fx_cckeep F) npos ndecl names simple with
+  | CMOk temps args =>
+      if Nat.ltb (length args) nreq then finish c ([], ONoneC, n)     (* Call with wrong number of arguments *)
+      else
+        let inplace := filter (fun p => negb (memb p temps)) args in
+        if fx_ccrecv F then
+          let '(c0, r0, n0) := grecv n in
+          let '(c1, trs, n1) := gen_sel gfs temps n0 in
+          let '(c2, irs, n2) := gen_sel gfs inplace n1 in
+          let env := combine (temps ++ inplace) (trs ++ irs) in
+          finish c (c0 ++ c1 ++ c2 ++ [IOp n2 o (r0 :: map (fun p => lookup p env) args)], OTemp n2, S n2)
+        else
+          let '(c1, trs, n1) := gen_sel gfs temps n in
+          let '(c0, r0, n0) := grecv n1 in
+          let '(c2, irs, n2) := gen_sel gfs inplace n0 in
+          let env := combine (temps ++ inplace) (trs ++ irs) in
+          finish c (c1 ++ c0 ++ c2 ++ [IOp n2 o (r0 :: map (fun p => lookup p env) args)], OTemp n2, S n2)
+  | _ => finish c ([], ONoneC, n)
+  end.
+
+(* the compiler rejects the call (compile error), or leaves it to a Python call (CMGap on a cpdef function) *)
+Definition ccall_rejected (F : flags) (nreq ndecl npos : nat) (names : list nat) (simple : nat -> bool) : bool :=
+  match ccmap (cc_sorted F) (fx_cckeep F) npos ndecl names simple with
+  | CMOk _ args => Nat.ltb (length args) nreq
+  | _ => true
   end.
 
 Section Gen.
@@ -504,6 +590,10 @@ Fixpoint gen (c : ctx) (e : expr) (n : nat) {struct e} : gres :=
             let '(cs, n3) := scan best tb rs n2 in
             finish c (cr ++ c0 ++ [IMove best r0] ++ cs, OTemp best, n3)
       end
+  | ECCall o nreq ndecl recv npos names es =>
+      let gfs := (fix go (es : list expr) : list (nat -> gres) :=
+                    match es with [] => [] | x :: xs => gen CVal x :: go xs end) es in
+      ccall_code F c o nreq ndecl (gen CVal recv) npos names (fun p => csimple F (nth p es ENone)) gfs n
   end.
 
 Fixpoint gens (es : list expr) (n : nat) : list instr * list operand * nat :=
@@ -675,6 +765,40 @@ Definition gen_stmt (s : stmt) (n : nat) : list instr * nat :=
 
 End Gen.
 
+(* some C call in the expression is rejected by the compiler *)
+Fixpoint rejected (F : flags) (e : expr) : bool :=
+  let any := fix any (es : list expr) : bool :=
+      match es with [] => false | x :: xs => rejected F x || any xs end in
+  match e with
+  | ELeaf _ _ | EName _ | ENone => false
+  | EOp _ es => any es
+  | ENot a => rejected F a
+  | EAnd a b | EOr a b => rejected F a || rejected F b
+  | ECond c a b => rejected F c || rejected F a || rejected F b
+  | ECmp a _ rest => rejected F a || any rest
+  | EMCall _ _ obj args => rejected F obj || any args
+  | EMinMax _ args => any args
+  | ECCall _ nreq ndecl recv npos names es =>
+      rejected F recv || any es ||
+      ccall_rejected F nreq ndecl npos names (fun p => csimple F (nth p es ENone))
+  end.
+
+(* the calls for which the generated order is proved to be the call order:
+   well-formed (every keyword declared, nothing bound twice, no gap, all required parameters given),
+   temps sorted, and - for the tree as it is - none of the three deviations is triggered:
+   no non-simple argument before the first temp (else the argument list is cut), every argument the
+   compiler takes for simple really is free of side effects (unless all keywords are in declaration
+   order), the receiver is a name (unless there are no temps) *)
+Definition ccok (F : flags) (nreq ndecl : nat) (recv : expr) (npos : nat) (names : list nat) (es : list expr) : bool :=
+  let simple := fun p => csimple F (nth p es ENone) in
+  let m := npos + length names in
+  let k := npos + inorder_prefix ndecl npos names in
+  Nat.eqb (length es) m && cc_wf npos ndecl names && cc_sorted F && Nat.leb nreq m &&
+  (fx_cckeep F || forallb simple (seq 0 k) || forallb simple (seq k (m - k))) &&
+  (forallb (fun e => implb (csimple F e) (tsimple e)) es || Nat.leb (length names) (inorder_prefix ndecl npos names)) &&
+  (fx_ccrecv F || tsimple recv ||
+   match ccmap (cc_sorted F) (fx_cckeep F) npos ndecl names simple with CMOk [] _ => true | _ => false end).
+
 (* ---------- the concrete semantics mirroring the logging runtime ---------- *)
 Fixpoint vtruth (v : val) : bool :=
   match v with
@@ -735,5 +859,18 @@ Definition init_state : state :=
 Definition run_stmt (F : flags) (s : stmt) : state * rmode :=
   let '(c, _) := gen_stmt F s 0 in run std_sem c init_state Normal.
 Definition ref_run (s : stmt) : sres := ref_stmt std_sem init_vars s.
-Definition mk_flags (a b c d : bool) : flags :=
-  {| fx_minmax := a; fx_mcall := b; fx_inplace := c; fx_cascade := d |}.
+Definition mk_flags8 (a b c d e f g h : bool) : flags :=
+  {| fx_minmax := a; fx_mcall := b; fx_inplace := c; fx_cascade := d;
+     fx_ccsimple := e; fx_cckeep := f; fx_ccrecv := g; cc_sorted := h |}.
+(* the first four repairs as given, the C-call mapping repaired *)
+Definition mk_flags (a b c d : bool) : flags := mk_flags8 a b c d true true true true.
+Definition starget_rejected (F : flags) (t : starget) : bool :=
+  match t with TName _ => false | TStore _ es => existsb (rejected F) es end.
+Definition stmt_rejected (F : flags) (s : stmt) : bool :=
+  match s with
+  | SAssign ts rhs =>
+      rejected F rhs ||
+      existsb (fun t => match t with TS t1 => starget_rejected F t1 | TTup l => existsb (starget_rejected F) l end) ts
+  | SAug lhs _ rhs => rejected F lhs || rejected F rhs
+  | SDel _ es => existsb (rejected F) es
+  end.
